@@ -9,6 +9,7 @@ def showErr : Err → String
   | .badOption t => s!"badOption {t}"
   | .missingValue t => s!"missingValue {t}"
   | .noScript => "noScript"
+  | .ambiguous t => s!"ambiguous {t}"
 
 def step (_ : Unit) (w : List String) : Unit × List String :=
   match w with
